@@ -33,6 +33,7 @@ THEOREMS = [
     # the same about the shape of the code as harness/extract/findshape.py reads it (Generated/FindShape.lean)
     "Nix.C13.find_methods",
     "Nix.C13.find_code",
+    "Nix.C13.find_mem_once_code",
     "Nix.C13.find_related_code",
     "Nix.C13.parent_code",
     "Nix.C13.parent_source_code",
